@@ -536,6 +536,9 @@ def option_misaligned(p, f, comp, oconds, cconds):
     return False
 
 
+_SUPPLY_KINDS = {}
+
+
 def pair_verdict(p, f, comp, corr, how, pairs, exp):
     """returns (verdict, detail): verdict in covered | uncovered | undecided"""
     g = CFG(f)
@@ -545,6 +548,7 @@ def pair_verdict(p, f, comp, corr, how, pairs, exp):
     sup = supply_of(p, comp, corr)
     if sup is None:
         return "undecided", "companion not evaluable"
+    _SUPPLY_KINDS[f.uid] = {kinds_str([tk]) for _, smonos, _ in sup for sm in smonos for tk in sc.mono_kinds(sm)}
     unknown = 0
     n_ok = 0
     misses = []
@@ -661,9 +665,31 @@ def sc1(p, res):
             res.ok("SC-1", {"op": f.pretty, "companion": comp.name, "formerly_under_declared": ent["monomials"]})
     others = [u for u in pairs if u not in frozen or frozen[u]["verdict"] != "covered"]
     res.extra["pairs_not_in_mirror_form"] = len(others)
-    for u in others[:60]:
+    shown = 0
+    for u in others:
         f, comp, corr, how = pairs[u]
-        res.undec("SC-1", "%s / %s: companion pays through other queries than the operation's own takes (not in mirror form; sufficiency is an arithmetic fact)" % (f.pretty, comp.name))
+        # a pair outside mirror form can still lose ground: a set of temporaries alive together that was paid for on the reference tree, whose every kind the companion still
+        # pays for somewhere, but no longer in one sum (`a.max(b)` where the operation holds a and b at once) is an under-declaration, not arithmetic
+        ent = frozen.get(u)
+        if ent is not None and ent["verdict"] == "uncovered" and isinstance(ent.get("detail"), list):
+            v, det = pair_verdict(p, f, comp, corr, how, pairs, exp)
+            if v == "uncovered":
+                known_unc = set(ent["detail"])
+                sk = _SUPPLY_KINDS.get(f.uid, set())
+                seen = set()
+                for dk, line, what in det:
+                    ks = kinds_str(dk)
+                    if ks in known_unc or ks in seen:
+                        continue
+                    seen.add(ks)
+                    if all(kinds_str([tk]) in sk for tk in dk):
+                        n_mirror += 1
+                        res.bad("SC-1", f.pretty, "sum-turned-max:%s" % ks,
+                                "%s may hold %s of scratch at once (at `%s`); its companion %s pays for each of these kinds, and on the reference tree paid for them together, but no sum of "
+                                "it contains them any more (a `max` where the operation needs a sum)" % (f.pretty, ks, what, comp.name), site=f.where(line))
+        if shown < 60:
+            shown += 1
+            res.undec("SC-1", "%s / %s: companion pays through other queries than the operation's own takes (not in mirror form; sufficiency is an arithmetic fact)" % (f.pretty, comp.name))
     res.floor("SC-1", "mirror-form pairs", n_mirror, 60)
 
 
